@@ -410,6 +410,7 @@ func c14(r *Report) {
 			}
 			r.Decide("path", "(*M/header.ViaModifier).ModifyRequest: every non-empty Via value is tested for a loop", extra == "", "only the emptiness test guards hasLoop", "another condition ("+extra+") decides whether the loop test runs at all: a Via chain it filters out is forwarded although it names this proxy", loops[0].Pos())
 		}
+		scanLoopsExhaustiveRule(r, w.Fn("header", "ViaModifier.hasLoop"), "a `break` (or a jump past the loop) ends the scan of the Via chain at some entry: a loop hidden behind a malformed or foreign entry is not detected and the request goes round again")
 		r.Decide("flow", "(*M/header.ViaModifier).ModifyRequest: the loop test examines the request's Via header", okArg, "hasLoop(<Via value>)", "the loop test looks at something else than the Via header", loops[0].Pos())
 		// the loop test compares the whole received-by token, built from the same two parts the
 		// stamp is written from (the proxy name may itself contain the separator)
@@ -683,6 +684,28 @@ func c14(r *Report) {
 			return
 		}
 		r.Touch(bf)
+		scanLoopsExhaustiveRule(r, bf, "a `break` ends the comparison of the Content-Length values early: a conflicting value further along the list (or in a later header line) is accepted")
+		// the canonical Content-Length is written back only when there was one
+		for _, hc := range headerCalls(bf) {
+			if hc.Method != "Set" || hc.Key != "Content-Length" {
+				continue
+			}
+			isLenCL := func(v ssa.Value) bool {
+				c, ok := unwrapConv(v).(*ssa.Call)
+				if !ok {
+					return false
+				}
+				b, ok := c.Call.Value.(*ssa.Builtin)
+				return ok && b.Name() == "len"
+			}
+			guarded := false
+			for _, ce := range ctrlEdges(hc.Call.Block()) {
+				if rel, adm := constCmpAdmits(ce, isLenCL, 0); rel && !adm {
+					guarded = true
+				}
+			}
+			r.Decide("path", "M/header.NewBadFramingModifier$1: Content-Length is rewritten only when the request has one", guarded, "the Set is behind a test that excludes an empty list", "a request without Content-Length gets an empty Content-Length header written into it", hc.Call.Pos())
+		}
 		var keys []string
 		for _, in := range instrs(bf) {
 			if lk, y := in.(*ssa.Lookup); y {
